@@ -1,4 +1,108 @@
-import PintModel.Model.Enable
+import PintModel.Props.C04
+/-!
+# C12 — a "dead code" report is never a false positive
+
+The analyser declares a join operand dead when `canJoin` fails.  `canJoin_false_no_match`: if `canJoin` says no, then
+no series of the left side can be matched with any series of the right side — *provided* the left series really carry
+the labels the analyser assumes they carry (`MustHave`, the assumption pint makes silently; it is what C12's data
+hypothesis "every series carries every label the query names" provides for selector sources: `mustHave_selector`) and
+the right source accounts for the right series (C04's `analyse_sound`).  Matching is judged on label names: two
+series whose matching signatures name different labels cannot be matched, whatever the values.
+
+What is recorded instead of proved (known findings, all with engine replays): the per-`or`-branch reporting, constant
+folding under `bool`, through value-changing aggregations and through joins, `or` right-hand sides, metric names
+dropped by functions.  C12 is claimed at the level of this lemma plus the engine differential runs.
+-/
 namespace Pint.Props.C12
-theorem placeholder : True := trivial
+open Pint.LabelFlow Pint.Props.C04
+
+/-- port of `canJoin` (after fix d2925e0): `on` = vm.On, `m` = vm.MatchingLabels -/
+def canJoin (on : Bool) (m : LS) (ls rs : Src) : Bool :=
+  if on then
+    if m.isEmpty then true
+    else m.all fun n => !(canHave ls n && !canHave rs n)
+  else
+    ls.guar.all fun n => m.contains n || !(canHave ls n && !canHave rs n)
+
+/-- the label names that take part in the matching -/
+def signature (on : Bool) (m : LS) (a : LS) : LS :=
+  if on then a.filter m.contains else a.filter fun n => !m.contains n && n != nameL
+
+def sameNames (a b : LS) : Prop := ∀ n, n ∈ a ↔ n ∈ b
+
+/-- what the analyser assumes about a left-hand series `a`: labels it says the source can have are there, as far as the
+matching looks at them -/
+def MustHave (on : Bool) (m : LS) (ls : Src) (a : LS) : Prop :=
+  ∀ n, CanHave ls n → (if on then n ∈ m else n ∈ ls.guar ∧ n ∉ m ∧ n ≠ nameL) → n ∈ a
+
+/-- **C12, join feasibility**: when `canJoin` fails, no left series (under `MustHave`) has the same matching
+signature as any right series the right source accounts for: the operation has no matching pair. -/
+theorem canJoin_false_no_match (on : Bool) (m : LS) (ls rs : Src) (a b : LS)
+    (hc : canJoin on m ls rs = false) (hl : MustHave on m ls a) (hr : Accounts rs b)
+    (hname : on = false → nameL ∉ ls.guar) :
+    ¬ sameNames (signature on m a) (signature on m b) := by
+  intro hsame
+  cases on with
+  | true =>
+    simp only [canJoin, if_true] at hc
+    by_cases he : m.isEmpty = true
+    · simp [he] at hc
+    · simp only [he, if_false] at hc
+      have hex : ∃ n ∈ m, (canHave ls n && !canHave rs n) = true := by
+        have := List.all_eq_false.mp hc
+        obtain ⟨n, hn, hp⟩ := this
+        exact ⟨n, hn, by simpa using hp⟩
+      obtain ⟨n, hnm, hp⟩ := hex
+      simp only [Bool.and_eq_true, Bool.not_eq_true'] at hp
+      have hna : n ∈ a := hl n ((canHave_iff ls n).mp hp.1) (by simpa using hnm)
+      have hsa : n ∈ signature true m a := by simp [signature, hna, hnm]
+      have hsb : n ∈ signature true m b := (hsame n).mp hsa
+      have hnb : n ∈ b := by simp [signature] at hsb; exact hsb.1
+      have := (canHave_iff rs n).mpr (hr n hnb)
+      rw [hp.2] at this; exact absurd this (by simp)
+  | false =>
+    simp only [canJoin, Bool.false_eq_true, if_false] at hc
+    have := List.all_eq_false.mp hc
+    obtain ⟨n, hng, hp⟩ := this
+    simp only [Bool.or_eq_true, Bool.not_eq_true', not_or, Bool.not_eq_true, Bool.and_eq_false_imp] at hp
+    have hnm : n ∉ m := by simpa using hp.1
+    have hcl : canHave ls n = true := by
+      cases h : canHave ls n with
+      | true => rfl
+      | false => simp [h] at hp
+    have hcr : canHave rs n = false := by
+      cases h : canHave rs n with
+      | false => rfl
+      | true => simp [hcl, h] at hp
+    have hnn : n ≠ nameL := fun e => hname rfl (e ▸ hng)
+    have hna : n ∈ a := hl n ((canHave_iff ls n).mp hcl) (by simp [hng, hnm, hnn])
+    have hsa : n ∈ signature false m a := by simp [signature, hna, hnm, hnn]
+    have hsb : n ∈ signature false m b := (hsame n).mp hsa
+    have hnb : n ∈ b := by simp [signature] at hsb; exact hsb.1
+    have := (canHave_iff rs n).mpr (hr n hnb)
+    rw [hcr] at this; exact absurd this (by simp)
+
+/-- the data hypothesis of C12 gives `MustHave` for selector sources: a series that carries every label of the universe
+carries whatever the matching asks for -/
+theorem mustHave_selector (on : Bool) (m : LS) (ms : List Matcher) (U a : LS)
+    (hfull : ∀ n ∈ U, n ∈ a) (hm : ∀ n ∈ m, n ∈ U) (hg : ∀ x ∈ ms, x.label ∈ U) :
+    MustHave on m (selSrc ms) a := by
+  intro n _ hcond
+  cases on with
+  | true => exact hfull n (hm n (by simpa using hcond))
+  | false =>
+    simp only [Bool.false_eq_true, if_false] at hcond
+    have : n ∈ (selSrc ms).guar := hcond.1
+    simp only [selSrc, excludeLabel, mem_removeFrom, mem_appendTo, List.mem_map, List.mem_filter, List.not_mem_nil, false_or] at this
+    obtain ⟨⟨x, ⟨hx, _⟩, rfl⟩, _⟩ := this
+    exact hfull _ (hg x hx)
+
+/-- `on()` with no labels never makes a join impossible; non-vacuity of the lemma's premise -/
+example (ls rs : Src) : canJoin true [] ls rs = true := by simp [canJoin]
+
+example :
+    let l := selSrc [{ label := "job", kind := .eq }]
+    let r := excludeMetricName (aggBySrc ["instance"] (selSrc [])) true ["instance"]
+    canJoin true ["job"] l r = false ∧ canJoin false [] l r = false ∧ canJoin false ["job"] l r = true := by decide
+
 end Pint.Props.C12
